@@ -141,6 +141,19 @@ def run(chk):
     for c, n in per_class.items():
         if c in listed:
             chk.known(c, n)
+    # every listed finding: replay its stored witness on the implementation against the recorded SPECIFICATION answer
+    # (model not consulted).  Still deviating -> KNOWN-FINDING; no longer deviating -> the code changed there: the model
+    # still carries the deviation, so the correspondence is stale.
+    for e in chk.findings:
+        w = e.get("witness", {})
+        if e.get("status") != "finding" or w.get("kind") != "sql-tables":
+            continue
+        it = sqlcheck.impl_tables(sqlimpl.run_case({"sql": w["sql"], "dialect": w["dialect"], "want": ("tables",)}))
+        if isinstance(it, dict) and "source" in it and it["source"] != sorted(w["spec_source"]):
+            if e["id"] not in chk.known_hits:
+                chk.known(e["id"])
+        else:
+            chk.stale.append({"kind": "finding-no-longer-reproduces", "id": e["id"], "witness": w, "impl": it})
     if first_fail is not None:
         s, d, why = first_fail
         small = sqlcheck.shrink(s, lambda c: property_fails(drv, c, d))
